@@ -24,6 +24,11 @@ def mod (a b : Int) : PyM Int := if b = 0 then .error zeroDiv else .ok (Int.fmod
     for this call shape and the bound is recorded as an assumption of the translated function. -/
 def trueDivTrunc (a b : Int) : PyM Int := if b = 0 then .error zeroDiv else .ok (Int.tdiv a b)
 
+/-- `int(ceil(a / c))` for an int `a` and a float literal `c` whose value is the integer `b`: the ceiling of the true
+    quotient.  Exact whenever |a| < 2^53 / |b| (a non-integer quotient is then further from every integer than the rounding
+    error of the float division); the bound is recorded as an assumption of the translated function. -/
+def ceilDivFloat (a b : Int) : PyM Int := if b = 0 then .error zeroDiv else .ok (-(Int.fdiv (-a) b))
+
 /-- `a ** b` on ints with an int result (negative exponents give a float in Python: unsupported). -/
 def pow (a b : Int) : PyM Int := if b < 0 then .error (.Other "FloatResult") else .ok (a ^ b.toNat)
 
@@ -106,6 +111,25 @@ def intOfBase (s : Text) (b : Nat) : PyM Int :=
 
 /-- `str.upper()` restricted to ASCII letters (digits of `hex()` output). -/
 def upperAscii (s : Text) : Text := s.map (fun c => if 'a' ≤ c ∧ c ≤ 'z' then Char.ofNat (c.toNat - 32) else c)
+
+/-- `s.isalpha()`: not empty and every character alphabetic (`isAlpha` is `str.isalpha` of one character). -/
+def strIsAlpha (isAlpha : Char → Bool) (s : Text) : Bool := !s.isEmpty && s.all isAlpha
+
+/-- a `float` that holds a duration of a whole number of milliseconds (the double nearest to `ms / 1000` seconds), carried
+    as that number.  Only the operations below are translated for it; each is exact on such doubles: comparison with an int
+    (rounding to nearest is monotone and ints are representable), `math.floor(x) != x` (decided by `ms % 1000`), and `x % c`
+    for an int `c` (`fmod` is exact; reached in the translated code only for whole seconds). -/
+structure Millis where
+  ms : Int
+  deriving DecidableEq, Repr
+
+/-- an `int` number of seconds compared with / used beside a `Millis` -/
+def Millis.ofInt (c : Int) : Millis := ⟨1000 * c⟩
+/-- `math.floor(x)` -/
+def Millis.floor (x : Millis) : Millis := ⟨1000 * Int.fdiv x.ms 1000⟩
+/-- `x % c` for an int `c` (sign of the divisor) -/
+def Millis.mod (x : Millis) (c : Int) : PyM Millis :=
+  if c = 0 then .error zeroDiv else .ok ⟨Int.fmod x.ms (1000 * c)⟩
 
 /-- a sheet / table as `ItemsList` sees it: identity + current name -/
 structure Item where
